@@ -176,6 +176,9 @@ def gen_world(r: Stream, *, n_agents: Optional[int] = None, max_graphs: int = 3,
     for ei in range(r.randint(0, max_eps)):
         words = r.sample(VOCAB, r.randint(1, 4))
         text = " ".join(words)
+        if r.chance(0.25):
+            # spelling variants of the same words (case, hyphens, punctuation): what text normalisation / aliasing act on
+            text = r.choice([text.title(), text.upper(), text.replace(" ", "-") + ",", "/".join(words) + "!", text + "s"])
         # ages on and just inside the edges of the recency windows the configs use (1, 30, 365 days), so that a few
         # hours of logical time move an episode across a window edge
         age_days = r.choice([0, 0, 1, 5, 29, 30, 31, 90, 400, 0.6, 0.95, 29.6, 29.95, 364.7])
